@@ -231,3 +231,135 @@ Proof.
   destruct (f v0) eqn:Ef; cbn [snd]; try discriminate.
   intros [= ->]. rewrite lookup_abs in E by exact Hn. exact (Hf k f c0 v0 eq_refl E Ef).
 Qed.
+
+(** ** The window arithmetic of the memory backend on the whole uint64 range *)
+
+Definition bop_nowrapb (o : bop) : bool :=
+  match o with
+  | BWalkPartial off n _ _ | BWalkPartialClass _ off n _ _ => off + n <? two64
+  | _ => true
+  end.
+
+(** the range of the statement lies inside the no-wrap range *)
+Lemma bop_ok_nowrap o : bop_okb o = true -> bop_nowrapb o = true.
+Proof.
+  destruct o; cbn [bop_okb bop_nowrapb]; auto; intros H; apply bop_ok_partial in H;
+    destruct H; apply N.ltb_lt; now apply range_nowrap.
+Qed.
+
+(** no panic whenever offset + limit does not wrap around *)
+Lemma mem_never_panics_nowrap t o :
+  nodupk t -> bop_nowrapb o = true ->
+  (forall k f c v, o = BMutate k f -> lookup k t = Some (c, v) -> f v <> MFail EPanic) ->
+  snd (mem_step t o) <> RErr EPanic.
+Proof.
+  intros Hn Hw Hf. destruct o; try (apply mem_never_panics; auto; reflexivity);
+    cbn [bop_nowrapb] in Hw; apply N.ltb_lt in Hw; cbn [mem_step snd].
+  - rewrite mem_walk_partial_nowrap by assumption. unfold walk_result.
+    destruct (visit _ _). discriminate.
+  - rewrite mem_walk_partial_class_nowrap by assumption. unfold walk_result.
+    destruct (visit _ _). discriminate.
+Qed.
+
+Lemma lenN_sort_keys desc ks : lenN (sort_keys desc ks) = lenN ks.
+Proof.
+  unfold sort_keys, lenN. f_equal.
+  assert (forall ltb x s, length (kins ltb x s) = S (length s)) as Hk.
+  { intros ltb x s. induction s as [|y s IH]; cbn [kins length]; [reflexivity|].
+    destruct (ltb x y); cbn [length]; auto. }
+  assert (forall ltb l, length (ksort ltb l) = length l) as Hs.
+  { intros ltb l. induction l as [|x l IH]; cbn [ksort fold_right length]; [reflexivity|].
+    fold (ksort ltb l). now rewrite Hk, IH. }
+  destruct desc; apply Hs.
+Qed.
+
+(** ... and exactly when it does wrap around (an offset or a limit of 2^63 or
+    more) with the wrapped end below the start, the slice expression of
+    partialKeys panics *)
+Lemma mem_partial_panics_exactly t off n desc f :
+  off < two64 -> n < two64 -> nodupk t ->
+  (snd (mem_step t (BWalkPartial off n desc f)) = RErr EPanic <->
+   two64 <= off + n /\ N.min (off + n - two64) (lenN t) < N.min off (lenN t)).
+Proof.
+  intros Ho Hl Hn. cbn [mem_step snd].
+  destruct (N.lt_ge_cases (off + n) two64) as [Hw|Hw].
+  - rewrite mem_walk_partial_nowrap by assumption. unfold walk_result.
+    destruct (visit _ _). split; [discriminate|]. intros [H _]. lia.
+  - rewrite (mem_walk_wrap f t off n _ Ho Hl Hw), lenN_sort_keys.
+    unfold mem_keys, lenN. rewrite map_length. fold (lenN t).
+    destruct (N.ltb_spec (N.min (off + n - two64) (lenN t)) (N.min off (lenN t))) as [H|H].
+    + split; auto.
+    + split; [discriminate|]. intros [_ H']. lia.
+Qed.
+
+(** ** Keys: the limit is on bytes; classes and values are unconstrained *)
+
+Lemma ordered_key_accepted_iff maxlen hk k :
+  map_key maxlen true hk k = Some k <-> lenN k <= maxlen.
+Proof.
+  unfold map_key. destruct (N.leb_spec (lenN k) maxlen) as [H|H]; split; intros; auto; try lia.
+  discriminate.
+Qed.
+
+(** a key of [m] runes of [w] bytes each is accepted by an ordered store iff
+    m * w <= limit: the count of runes plays no role *)
+Lemma repeated_rune_key maxlen hk (rune : bytes) (m : nat) :
+  map_key maxlen true hk (List.concat (repeat rune m))
+  = if N.of_nat m * lenN rune <=? maxlen then Some (List.concat (repeat rune m)) else None.
+Proof.
+  unfold map_key. replace (lenN (List.concat (repeat rune m))) with (N.of_nat m * lenN rune); [reflexivity|].
+  unfold lenN. induction m as [|m IH]; cbn [repeat List.concat length]; [reflexivity|].
+  rewrite app_length. lia.
+Qed.
+
+(** Add is AddClass with the empty class *)
+Lemma add_is_addclass_empty maxlen ordered hk jv (S : Type) (step : S -> bop -> S * result) s k v :
+  kv_step maxlen ordered hk jv step s (UAdd k v) = kv_step maxlen ordered hk jv step s (UAddClass k [] v).
+Proof. reflexivity. Qed.
+
+(** a class of any length is stored as given *)
+Lemma class_stored_verbatim s k c v :
+  lookup k s = None -> lookup k (fst (spec_step s (BAdd k c v))) = Some (c, v).
+Proof.
+  intros H. destruct (add_missing_inserts s k c v H) as [_ Hl]. rewrite Hl. now rewrite keqb_refl.
+Qed.
+
+(** ** Values that are not JSON: stored and returned as bytes, refused by the
+    decoding readers, which leave the store unchanged *)
+
+Lemma kv_get_undecodable maxlen ordered hk jv s k mk c v :
+  map_key maxlen ordered hk k = Some mk -> @lookup entry mk s = Some (c, v) -> jv v = false ->
+  kv_step maxlen ordered hk jv spec_step s (UGet k) = (s, RErr EDecode) /\
+  kv_step maxlen ordered hk jv spec_step s (UGetBytes k) = (s, RBytes v).
+Proof.
+  intros Hk Hl Hj. cbn [kv_step]. unfold with_key, post. rewrite Hk. cbn [spec_step].
+  rewrite Hl. cbn [fst snd]. now rewrite Hj.
+Qed.
+
+Lemma kv_setbytes_any_value maxlen ordered hk jv s k mk c v0 v :
+  map_key maxlen ordered hk k = Some mk -> @lookup entry mk s = Some (c, v0) ->
+  snd (kv_step maxlen ordered hk jv spec_step s (USetBytes k v)) = RUnit /\
+  lookup mk (fst (kv_step maxlen ordered hk jv spec_step s (USetBytes k v))) = Some (c, v).
+Proof.
+  intros Hk Hl. cbn [kv_step]. unfold with_key. rewrite Hk. cbn [spec_step]. rewrite Hl.
+  cbn [fst snd]. split; [reflexivity|]. rewrite lookup_sset. now rewrite keqb_refl.
+Qed.
+
+(** a walk hands over the entries before the first undecodable value and
+    then fails with the decode error *)
+Lemma visit_stops_at_undecodable jv (a b : table) k c v :
+  Forall (fun p => jv (snd (snd p)) = true) a -> jv v = false ->
+  visit (do_walk jv WAll) (a ++ (k, (c, v)) :: b) = (map snd a, Some EDecode).
+Proof.
+  intros Ha Hv. induction Ha as [|[k0 [c0 v0]] a Hx _ IH]; cbn [app visit map snd].
+  - unfold do_walk. now rewrite Hv.
+  - cbn [snd] in Hx. unfold do_walk at 1. rewrite Hx. now rewrite IH.
+Qed.
+
+Lemma visit_all_decodable jv (a : table) :
+  Forall (fun p => jv (snd (snd p)) = true) a ->
+  visit (do_walk jv WAll) a = (map snd a, None).
+Proof.
+  intros Ha. induction Ha as [|[k0 [c0 v0]] a Hx _ IH]; cbn [visit map snd]; [reflexivity|].
+  cbn [snd] in Hx. unfold do_walk at 1. rewrite Hx. now rewrite IH.
+Qed.
